@@ -28,6 +28,65 @@ type c14Case struct {
 	Via string `json:"via"`
 	// IFSHex replaces IFS in the record when IFS is not valid UTF-8.
 	IFSHex string `json:"ifs_hex,omitempty"`
+	// Args: the positional parameters; a segment of style "\"@" is then
+	// "$@" with these (each a field of its own, the first joined to what
+	// stands in front of the quotes, the last to what follows them).
+	Args []string `json:"args,omitempty"`
+	// AssignIFS: the word ends in ${IFS:=value}, with IFS unset (or null,
+	// when IFSSet) beforehand: the word is split with the value it assigns.
+	AssignIFS string `json:"assign_ifs,omitempty"`
+}
+
+// c14Want computes the fields the property demands.
+func c14Want(c c14Case) (fields []string, conserved string) {
+	ifs, set := c.ifs(), c.IFSSet
+	segs := append([]ref.Seg{}, c.Segs...)
+	if c.AssignIFS != "" {
+		ifs, set = c.AssignIFS, true
+		segs = append(segs, ref.Seg{Text: c.AssignIFS})
+	}
+	if len(c.Args) == 0 {
+		return ref.Split(segs, ifs, set), ref.Conserved(segs, ifs, set)
+	}
+	// cut the word at every "$@"
+	var pieces [][]ref.Seg
+	cur := []ref.Seg{}
+	for _, sg := range segs {
+		if !sg.Quoted && sg.Style == `"@` {
+			pieces = append(pieces, cur)
+			cur = []ref.Seg{}
+			continue
+		}
+		cur = append(cur, sg)
+	}
+	pieces = append(pieces, cur)
+	first, last := ref.Seg{Text: c.Args[0], Quoted: true}, ref.Seg{Text: c.Args[len(c.Args)-1], Quoted: true}
+	if len(c.Args) == 1 {
+		var flat []ref.Seg
+		for i, p := range pieces {
+			if i > 0 {
+				flat = append(flat, first)
+			}
+			flat = append(flat, p...)
+		}
+		return ref.Split(flat, ifs, set), ref.Conserved(flat, ifs, set)
+	}
+	for i, p := range pieces {
+		part := append([]ref.Seg{}, p...)
+		if i > 0 {
+			part = append([]ref.Seg{last}, part...)
+		}
+		if i < len(pieces)-1 {
+			part = append(part, first)
+		}
+		fields = append(fields, ref.Split(part, ifs, set)...)
+		conserved += ref.Conserved(part, ifs, set)
+		if i < len(pieces)-1 {
+			fields = append(fields, c.Args[1:len(c.Args)-1]...)
+			conserved += strings.Join(c.Args[1:len(c.Args)-1], "")
+		}
+	}
+	return fields, conserved
 }
 
 // ifs returns the IFS value of the case.
@@ -86,6 +145,9 @@ func c14Word(c c14Case, vars map[string]string) (ast.Word, string, error) {
 				w = append(w, &ast.Quote{Tok: `'`, Value: ast.Word{&ast.Lit{Value: s.Text}}})
 			}
 		}
+		if c.AssignIFS != "" {
+			w = append(w, &ast.ParamExp{Braces: true, Name: &ast.Lit{Value: "IFS"}, Op: ":=", Word: ast.Word{&ast.Lit{Value: c.AssignIFS}}})
+		}
 		return w, "", nil
 	}
 	var b strings.Builder
@@ -128,6 +190,9 @@ func c14Word(c c14Case, vars map[string]string) (ast.Word, string, error) {
 			b.WriteString(`"${` + name + `}"`)
 		}
 	}
+	if c.AssignIFS != "" {
+		b.WriteString("${IFS:=" + c.AssignIFS + "}")
+	}
 	src := "_ " + b.String()
 	cmd, _, err := parser.ParseCommand("c14", src)
 	if err != nil {
@@ -152,7 +217,13 @@ func checkC14(c c14Case) error {
 		return err
 	}
 	env.Opts |= interp.NoGlob
-	env.Args = []string{"sh"} // no positional parameters
+	env.Args = append([]string{"sh"}, c.Args...)
+	if c.AssignIFS != "" {
+		// the word itself assigns IFS, which is unset or null beforehand
+		if c.IFSSet {
+			ifs = ""
+		}
+	}
 	if c.IFSSet {
 		env.Set("IFS", ifs)
 	} else {
@@ -174,11 +245,11 @@ func checkC14(c c14Case) error {
 	}); err != nil {
 		return fmt.Errorf("Expand of %s (src %q) IFS=%q set=%v: %v", segString(c.Segs), src, ifs, c.IFSSet, err)
 	}
-	want := ref.Split(c.Segs, ifs, c.IFSSet)
+	want, keep := c14Want(c)
 	if !(len(got) == 0 && len(want) == 0) && !reflect.DeepEqual(got, want) {
-		return fmt.Errorf("Expand of %s (src %q) IFS=%q set=%v: got %q, want %q", segString(c.Segs), src, ifs, c.IFSSet, got, want)
+		return fmt.Errorf("Expand of %s (src %q) IFS=%q set=%v args=%q assigning IFS=%q: got %q, want %q", segString(c.Segs), src, ifs, c.IFSSet, c.Args, c.AssignIFS, got, want)
 	}
-	if cat, keep := strings.Join(got, ""), ref.Conserved(c.Segs, ifs, c.IFSSet); cat != keep {
+	if cat := strings.Join(got, ""); cat != keep {
 		return fmt.Errorf("Expand of %s IFS=%q set=%v: fields %q concatenate to %q, but the word without its unquoted IFS characters is %q", segString(c.Segs), ifs, c.IFSSet, got, cat, keep)
 	}
 	return nil
@@ -263,7 +334,8 @@ func TestC14(t *testing.T) {
 		{"e", func(w, n string) (ref.Seg, bool) { return ref.Seg{Quoted: true}, true }},
 	}
 	// for IFS characters that have an ill-formed twin: "\xfe" next to "\xff", "\xff" next to U+FFFD
-	twin := map[string]string{"\xff": "\xfe", "\uFFFD": "\xff"}
+	// for multi-byte IFS characters: one of the bytes of their encoding, on its own
+	twin := map[string]string{"\xff": "\xfe", "\uFFFD": "\xff", "é": "\xa9", "\u3000": "\x80", "\u4e2d": "\xb8"}
 	maxn := 6
 	if thorough() {
 		maxn = 7
@@ -395,6 +467,80 @@ func TestC14(t *testing.T) {
 		st.Note("exhaustive: all words of <= %d segments over the 7 kinds plus '' , backslash-quoted ordinary and IFS characters, double-quoted IFS characters, and $@ / \"$@\" with no positional parameters, that use at least one of the added spellings x %d IFS settings, as AST and as parsed source", max2, len(c14Cfgs))
 	}
 
+	// (a‴) "$@" with positional parameters inside a longer word: every
+	// parameter is a field of its own, the first joined to what stands in
+	// front of the quotes and the last to what follows them; and words that
+	// assign IFS themselves
+	{
+		pool := []ref.Seg{{Text: "x"}, {Text: " "}, {Text: ","}, {Text: "y", Quoted: true, Style: "'"}, {Text: " z", Quoted: true, Style: `"`}, {Quoted: true, Style: "'"}, {Text: "w,"}}
+		at := ref.Seg{Style: `"@`}
+		var sides [][]ref.Seg
+		sides = append(sides, nil)
+		for _, a := range pool {
+			sides = append(sides, []ref.Seg{a})
+			for _, b := range pool {
+				sides = append(sides, []ref.Seg{a, b})
+			}
+		}
+		k := 0
+		var n int64
+		for _, args := range [][]string{{"a b", "c"}, {"", "x"}, {"p", "", ""}, {"q"}, {"", ""}, {"a,b", "c d", "e"}} {
+			for _, cfg := range []c14IFS{{false, "", " ", ""}, {true, " ,", " ", ","}, {true, "", "", ""}, {true, ",", "", ","}} {
+				for _, pre := range sides {
+					for _, post := range sides {
+						k++
+						if k%nsh != sh {
+							continue
+						}
+						for _, via := range []string{"ast", "parse"} {
+							c := mkC14(cfg.val, cfg.set, via)
+							c.Args = args
+							c.Segs = append(append(append([]ref.Seg{}, pre...), at), post...)
+							if k%5 == 0 {
+								// twice in one word
+								c.Segs = append(append(c.Segs, at), pre...)
+							}
+							if err := checkC14(c); err != nil {
+								fail(t, "C14", "split", c, "%v", err)
+							}
+							n++
+						}
+					}
+				}
+			}
+		}
+		st.EvalN(n, n)
+		st.ClassN("dquoted_at_with_parameters_inside_a_word", n)
+		n = 0
+		for _, val := range []string{":", ",", " ", "x", ": ", "\t,"} {
+			for _, null := range []bool{false, true} {
+				for _, pre := range sides {
+					k++
+					if k%nsh != sh {
+						continue
+					}
+					for _, extra := range []string{"", val, "a" + val + "b c", " a" + val} {
+						for _, via := range []string{"ast", "parse"} {
+							c := mkC14("", null, via)
+							c.AssignIFS = val
+							c.Segs = append([]ref.Seg{}, pre...)
+							if extra != "" {
+								c.Segs = append(c.Segs, ref.Seg{Text: extra})
+							}
+							if err := checkC14(c); err != nil {
+								fail(t, "C14", "split", c, "%v", err)
+							}
+							n++
+						}
+					}
+				}
+			}
+		}
+		st.EvalN(n, n)
+		st.ClassN("word_that_assigns_ifs", n)
+		st.Note("\"$@\" with 1-3 positional parameters (empty ones among them) between 0-2 segments on either side, once or twice in a word, x 4 IFS settings; words that end in ${IFS:=value} with IFS unset or null beforehand (6 values), split with the value they assign; both as AST and as parsed source")
+	}
+
 	// (a') results of arithmetic expansions are text of the word like any
 	// other: unquoted ones are cut at IFS characters (digits, the minus sign)
 	if sh == 0 {
@@ -454,6 +600,18 @@ func TestC14(t *testing.T) {
 		}
 		if strings.Contains(ifs, "\uFFFD") {
 			alpha = append(alpha, "\xff", "\xc3", "a\xffb", "\uFFFD")
+		}
+		for _, r := range ifs {
+			if r >= 0x80 && r != utf8.RuneError {
+				// the bytes of a multi-byte IFS character, each on its own, are other characters
+				// (continuation bytes only: a stray lead byte in front of one
+				// in the next segment would spell a character after all)
+				for _, b := range []byte(string(r)) {
+					if b < 0xc0 {
+						alpha = append(alpha, string([]byte{b}))
+					}
+				}
+			}
 		}
 		for _, r := range ifs {
 			if r > 0xff && r != utf8.RuneError {
